@@ -49,7 +49,8 @@ def signal(name: str) -> None:
 
 async def _gates(job_name: str, attempt: int, phase: str = "execute") -> None:
     """forced interleavings: `case.gates = [{job, attempt, phase?, signal?, wait?, timeout?}]` — at the start of the given execution of the
-    job (phase execute: its status is RUNNING; phase schedule: it has just been scheduled, FIREABLE) first raise `signal`, then hold the job until `wait` was raised (by another gate or by the failure-manager
+    job (phase execute: its status is RUNNING; phase schedule: it has just been scheduled, FIREABLE; phase completed: its outputs are in
+    the output ports, the k-th `notify_status(job, COMPLETED)` has not been delivered yet) first raise `signal`, then hold the job until `wait` was raised (by another gate or by the failure-manager
     tracer: `synced:<failed job>` = a recovery finished `_synchronize_workflows`); a wait that times out is logged, not an error"""
     for g in STATE.get("gates", []):
         if g["job"] == job_name and g["attempt"] == attempt and g.get("phase", "execute") == phase:
@@ -277,6 +278,11 @@ def _trace_failure_manager(context) -> None:
     orig_sync = fm._synchronize_workflows
 
     async def _synchronize_workflows(*a, **kw):
+        # `retry_requests` is built from a SET of job names: its order is arbitrary (string hashing); `case.sync_order` (a list of job
+        # names) picks one of the orders the real code can see, so both are exercised deterministically
+        order = STATE.get("sync_order")
+        if order and "retry_requests" in kw:
+            kw["retry_requests"] = sorted(kw["retry_requests"], key=lambda q: order.index(q.name) if q.name in order else len(order))
         try:
             return await orig_sync(*a, **kw)
         finally:
@@ -352,6 +358,8 @@ async def _build(case: dict, context, workflow, translator, dep: str, location):
         m = shape["m"]
         value = [await _file(context, location, f"payload-{i}") for i in range(m)]
         a = stage("a", {"out": await source("out", value)}, "out", "list")
+        if shape.get("deep"):       # two-level shared ancestors: a -> m -> b_i
+            a = stage("m", {"out": a.get_output_port("out")}, "out", "list")
         sc = workflow.create_step(cls=ScatterStep, name="/b-scatter")
         sc.add_input_port("out", a.get_output_port("out"))
         sc.add_output_port("out", workflow.create_port())
@@ -366,6 +374,8 @@ async def _build(case: dict, context, workflow, translator, dep: str, location):
     if shape["kind"] == "diamond":
         value = await _file(context, location, "payload-diamond")
         a = stage("a", {"out": await source("out", value)}, "out", "file")
+        if shape.get("deep"):       # two-level shared ancestors: a -> m -> b1, b2
+            a = stage("m", {"out": a.get_output_port("out")}, "out", "file")
         b1 = stage("b1", {"out": a.get_output_port("out")}, "out", "file")
         b2 = stage("b2", {"out": a.get_output_port("out")}, "out", "file")
         c = translator.get_execute_pipeline(command="lambda x : ('copy', 'file', x['l'].value)", deployment_names=[dep],
@@ -427,6 +437,17 @@ async def _run(case: dict) -> dict:
         STATE["replica_loc"] = next(iter((await conn2.get_available_locations()).values())).location
     if case.get("trace_fm"):
         _trace_failure_manager(context)
+    if any(g.get("phase") == "completed" for g in STATE.get("gates", [])):
+        # gate between "the job's outputs are in its output ports" and "the scheduler sees it COMPLETED" (ExecuteStep._run_job, finally)
+        orig_notify = context.scheduler.notify_status
+        done_n: dict = {}
+
+        async def notify_status(job_name, status):
+            if status == Status.COMPLETED:
+                done_n[job_name] = done_n.get(job_name, 0) + 1
+                await _gates(job_name, done_n[job_name], "completed")
+            return await orig_notify(job_name, status)
+        context.scheduler.notify_status = notify_status
     res: dict = {"outcome": None}
     try:
         connector = context.deployment_manager.get_connector(dep)
@@ -498,6 +519,30 @@ async def _run(case: dict) -> dict:
     return res
 
 
+def _run_loop(coro):
+    """like asyncio.run, but the final "cancel everything and wait" is bounded: after a hang some tasks of the engine do not end when
+    cancelled, and asyncio.run would wait for them forever (turning a detected hang into a worker time-out)"""
+    loop = asyncio.new_event_loop()
+    try:
+        asyncio.set_event_loop(loop)
+        return loop.run_until_complete(coro)
+    finally:
+        try:
+            left = [t for t in asyncio.all_tasks(loop) if not t.done()]
+            for t in left:
+                t.cancel()
+            if left:
+                loop.run_until_complete(asyncio.wait(left, timeout=5))
+            loop.run_until_complete(asyncio.wait_for(loop.shutdown_asyncgens(), 5))
+        except BaseException:  # noqa: BLE001
+            pass
+        asyncio.set_event_loop(None)
+        try:
+            loop.close()
+        except BaseException:  # noqa: BLE001
+            pass
+
+
 def run_case(case: dict) -> dict:
     """case = {shape: {...}, plan: [...], max_retries, manager, root, timeout}"""
     import streamflow.log_handler  # noqa: F401  (sets the level on import)
@@ -505,13 +550,14 @@ def run_case(case: dict) -> dict:
     logging.disable(logging.CRITICAL)
     _reset(case.get("plan", []))
     STATE["gates"] = [dict(g) for g in case.get("gates", [])]
+    STATE["sync_order"] = case.get("sync_order")
     root = case.get("root") or tempfile.mkdtemp(prefix="sfv-recov-")
     case = dict(case, root=root)
     try:
         if case.get("lseed") is not None:
             from sfv.rt.loop import run_controlled
             return run_controlled(lambda: _run(case), case["lseed"], timeout=case.get("timeout", 180) + 60)
-        return asyncio.run(_run(case))
+        return _run_loop(_run(case))
     finally:
         shutil.rmtree(root, ignore_errors=True)
 
